@@ -114,6 +114,14 @@ def handle (line : String) : String :=
       out id agree (b2s specOk) s!"scan-{mode}-{sizeCls}-{limCls}" "-"
         (if m.length > 300 then (m.take 300).toString ++ "…" else m)
     | _, _, _ => bad id "parse"
+  | ["noise", id, _what, vol] =>
+    -- background listings whose 600-character selector cannot be issued as a token
+    -- (C14.issue_fails_iff): every one is a 500, and none of them may disturb a scan
+    -- (each scan line above is judged on its own)
+    match impl with
+    | [all500, other] =>
+      out id (all500 == "1" && other == "0") (b2s (all500 == "1" && other == "0")) s!"noise-{vol}" "-" "1 0"
+    | _ => bad id "parse-noise"
   | _ => bad "?" "unknown-stream"
 
 end Dropshot.DriverC15
